@@ -226,6 +226,15 @@ Fixpoint xread (s : xstate) (toks : list xtok) : xres * xstate * list xtok :=
 
 Definition xbuild (toks : list xtok) : xres := fst (fst (xread xinit toks)).
 
+(* Several readers alive at the same time: all of a reader's state (cursor, namespace table,
+   stream candidate) is in its own xstate; a system of two readers fed in any interleaving is the
+   pair of their states. *)
+Definition xfeed (s : xstate) (toks : list xtok) : xstate :=
+  fold_left (fun s t => fst (xstep s t)) toks s.
+Definition xstep2 (st : xstate * xstate) (ev : bool * xtok) : xstate * xstate :=
+  if fst ev then (fst (xstep (fst st) (snd ev)), snd st)
+  else (fst st, fst (xstep (snd st) (snd ev))).
+
 (* ---- the reference DOM ----------------------------------------------------------------------- *)
 (* the URI a written prefix denotes in scope [env] (XML namespaces: "xml" is bound by definition;
    the empty prefix of an ELEMENT denotes the default namespace, "" when there is none) *)
